@@ -127,8 +127,8 @@ type sim struct {
 	// the registry is rewritten on every create/delete, the ORDER of position saves and registry saves matters for a pipe
 	// whose position file is the registry file, so a position save is reported only when the positions changed
 	lastPos map[string]string
-	// treeDamaged: the image has zero-filled / cut tree files AND the snapshot that refers to them (finding F47's class):
-	// the blocks the snapshot's roots point to are free and get re-allocated by index (re)builds of other chunks
+	// treeDamaged: the image has zero-filled / cut tree files AND the snapshot that refers to them (class of the repaired
+	// finding F47; cindex.init now forgets such roots, so the comparison with the model is strict again)
 	treeDamaged bool
 	crashMode   bool // the running server was started on a crash image
 	dead       bool // the server refused to start / infrastructure problem: stop the case
@@ -605,13 +605,18 @@ func (s *sim) doWrite(o hop, rng *vh.Rng, flush bool) (p *part, evs []ev) {
 }
 
 func (s *sim) flushAndSync(p *part, evs []ev) {
-	for try := 0; try < 60; try++ {
+	for try := 0; try < 200; try++ {
+		// flush explicitly instead of waiting for the writer's timer (which can be starved on a loaded machine)
+		if j, err := s.srv.Journals.GetOrCreate(context.Background(), p.src); err == nil {
+			j.Sync()
+		}
 		s.srv.FlushWait()
 		if s.syncWrite(p, evs) {
 			return
 		}
 	}
 	res.Note("%s: written records of %s never became visible in the chunk layout", s.sec, p.tags)
+	s.dead = true // the bookkeeping of this case is no longer reliable
 }
 
 func (s *sim) doMkPipe(o hop) {
@@ -1062,27 +1067,16 @@ func (s *sim) oracle(rng *vh.Rng, how string, ref probeRef) {
 					continue
 				}
 			}
-			if s.treeDamaged && !eq && err == nil && sameEvs(got, want) {
-				// exact although the hull-level model predicted a loss (a stale hull): a rebuild of the chunk — which a root that
-				// cannot be used triggers — has extended the hull meanwhile; admitted by the same relation
-				res.Dist(s.sect, "damaged-tree:exact-after-rebuild")
-				continue
-			}
-			if s.treeDamaged && !eq && err == nil && len(got) < len(want) {
-				// MODEL (as a relation): the snapshot's roots point into a tree file whose content is gone; which window a
-				// look-up through such a root yields depends on what the asynchronous index (re)builds of other chunks have
-				// put into those blocks meanwhile — the hull-level model admits any sub-answer here (class of F47)
-				s.specFail("hidden-event", fmt.Sprintf("RANGE [%d:%d] over partition %s after %s hides flushed events", r[0], r[1], p.tags, how),
-					evsStr(got), evsStr(want), "any sub-answer (stale root into a damaged tree file)", true, "F47")
-				continue
-			}
 			if !eq {
 				res.Mismatch(vh.Mismatch{Section: s.sec, Function: fmt.Sprintf("RANGE [%d:%d] over %s after %s", r[0], r[1], p.tags, how), Input: s.in, Impl: impl, Model: vis})
 			}
 			if err != nil || !sameEvs(got, want) {
+				// both findings are repaired: the tags mark a recurrence ("the defect is back")
 				finding := ""
 				if eq && stale && len(got) < len(want) {
 					finding = "F06"
+				} else if s.treeDamaged && err == nil && len(got) < len(want) {
+					finding = "F47" // a root into a damaged tree file is trusted again
 				}
 				s.specFail("hidden-event", fmt.Sprintf("RANGE [%d:%d] over partition %s after %s does not return exactly the flushed events in range", r[0], r[1], p.tags, how),
 					evsStr(got), evsStr(want), vis, eq, finding)
